@@ -19,6 +19,7 @@ ASSUMPTIONS = [
     "Within one type group values are a Python set (== decides identity, so (1,) and (1.0,) are one list value).",
     "Empty-mapping values are outside the stated universe and are not generated.",
 ]
+MANIFEST = {"technique": 'runtime monitoring: reference summaries (schema by exact type, diff + reconstruction law) over generated corpora', "engine": 'reference-model monitor'}
 TIME_CAP = {"quick": 60, "thorough": 900}
 
 TYPED = [1, 1.0, True, 0, 0.0, False, 2, -1, -1.0, -2, -2.0, "1", "x", None, [1], [1, 2], [1.0], ["x"], 2.5]
